@@ -196,8 +196,8 @@ SHAPES_GROUPS = {"dir_NoLabel": 0, "und_NoLabel": 1, "dir_int": 2, "und_int": 3,
                  "dweighted": 7, "uweighted": 7, "dir_struct": 8, "und_struct": 8}
 
 
-def shapes_build(group):
-    return Build("shapes_g%d" % group, "harness/shapes.cpp", flags=["-O2", "-DGROUP=%d" % group])
+def shapes_build(group, opt="-O2"):
+    return Build("shapes_g%d%s" % (group, "" if opt == "-O2" else opt.replace("-", "_")), "harness/shapes.cpp", flags=[opt, "-DGROUP=%d" % group])
 
 
 PLAIN6 = ["dir_NoLabel", "und_NoLabel", "dir_int", "und_int", "dir_string", "und_string"]
@@ -206,8 +206,8 @@ SHAPES_PLANS = {
     "C08": {
         "quick": [(c, "n2", []) for c in ALL10] + [("dir_NoLabel", "n3", []), ("und_NoLabel", "n3", [])] +
                  [(c, "n3d3", []) for c in ("dir_int", "und_int", "dmulti", "umulti", "dweighted", "uweighted")] +
-                 [("dir_NoLabel", "e2n4", ["--nofiles"]), ("und_NoLabel", "e2n5", ["--nofiles"]), ("dmulti", "e2n3", []), ("umulti", "e2n3", []), ("dweighted", "e2n3", []), ("uweighted", "e2n3", [])] + [(c, "big", []) for c in ("dir_int", "und_string")],
-        "thorough": [(c, "big", []) for c in PLAIN6] + [(c, "n2", []) for c in ALL10] + [(c, "n3", []) for c in ALL10] +
+                 [("dir_NoLabel", "e2n4", ["--nofiles"]), ("und_NoLabel", "e2n5", ["--nofiles"]), ("dmulti", "e2n3", []), ("umulti", "e2n3", []), ("dweighted", "e2n3", []), ("uweighted", "e2n3", [])] + [(c, "big", []) for c in ("dir_int", "und_string")] + [("und_NoLabel", "huge", []), ("dir_NoLabel", "huge", [])],
+        "thorough": [(c, "huge", []) for c in ("und_NoLabel", "dir_NoLabel", "und_int", "umulti", "uweighted")] + [(c, "big", []) for c in PLAIN6] + [(c, "n2", []) for c in ALL10] + [(c, "n3", []) for c in ALL10] +
                     [("dir_NoLabel", "e2n4", []), ("und_NoLabel", "e2n5", []), ("dir_int", "e2n4", ["--nofiles"]), ("und_int", "e2n5", ["--nofiles"]),
                      ("dmulti", "e2n4", ["--nofiles"]), ("umulti", "e2n5", ["--nofiles"]), ("dweighted", "e2n4", ["--nofiles"]), ("uweighted", "e2n5", ["--nofiles"])],
     },
@@ -242,9 +242,10 @@ def run_shapes(prop, tier, deadline):
     outcome = Outcome(prop, tier, "exploration")
     plan = SHAPES_PLANS[prop][tier]
     builds = {}
-    for cfg, _, _ in plan:
+    for cfg, variant, _ in plan:
         g = SHAPES_GROUPS[cfg]
-        builds[g] = shapes_build(g)
+        # the huge shapes are run unoptimised: g++ -O2 turns a self-recursive iterator into a loop
+        builds[(g, variant == "huge")] = shapes_build(g, "-O0" if variant == "huge" else "-O2")
     built = build_all(list(builds.values()))
     if compile_failures(outcome, built):
         outcome.coverage = {"evaluations": 1, "distinct_nontrivial": 0, "rule": "harness did not compile", "samples": ["compile failure"]}
@@ -254,7 +255,7 @@ def run_shapes(prop, tier, deadline):
     for k, (cfg, variant, extra) in enumerate(plan):
         tmpd = os.path.join(workdir, "t%d" % k)
         os.makedirs(tmpd, exist_ok=True)
-        jobs.append(Job(builds[SHAPES_GROUPS[cfg]], ["--prop", prop, "--config", cfg, "--variant", variant, "--tier", tier, "--tmpdir", tmpd] + extra,
+        jobs.append(Job(builds[(SHAPES_GROUPS[cfg], variant == "huge")], ["--prop", prop, "--config", cfg, "--variant", variant, "--tier", tier, "--tmpdir", tmpd] + extra,
                         label="%s/%s" % (cfg, variant), timeout=deadline + 300, deadline=deadline))
     run_jobs(jobs, built, workdir)
     results = collect(outcome, jobs, built)
@@ -523,6 +524,8 @@ def c17_jobs(tier):
             jobs.append(("shapes", c, "conversions %s" % c, ["--prop", "C09", "--config", c, "--variant", "n2"], True))
             jobs.append(("shapes", c, "subgraphs %s" % c, ["--prop", "C10", "--config", c, "--variant", "n2"], True))
         jobs.append(("shapes", c, "constructors %s" % c, ["--prop", "C09", "--config", c, "--variant", "ctor", "--len", "2"], True))
+    jobs.append(("shapes", "und_NoLabel", "huge star traversal und", ["--prop", "C08", "--config", "und_NoLabel", "--variant", "huge", "--spokes", "300000"], True))
+    jobs.append(("shapes", "dir_NoLabel", "huge star traversal dir", ["--prop", "C08", "--config", "dir_NoLabel", "--variant", "huge", "--spokes", "300000"], True))
     jobs.append(("paths", "dir", "bfs dir e1n3", ["--prop", "C11", "--config", "dir", "--source", "e1", "--n", "3"], False))
     jobs.append(("paths", "und", "bfs und e1n3", ["--prop", "C11", "--config", "und", "--source", "e1", "--n", "3"], False))
     jobs.append(("paths", "dir", "bfs dir layered", ["--prop", "C11", "--config", "dir", "--source", "layered", "--maxv", "9"], False))
@@ -533,9 +536,9 @@ def c17_jobs(tier):
         jobs.append(("paths", "dw", "dijkstra dw 5-edge graphs on 5 vertices", ["--prop", "C12", "--config", "dw", "--source", "subsets", "--n", "5", "--edges", "5", "--weights", "1,3,8", "--stride", "5"], False))
         jobs.append(("paths", "uw", "dijkstra uw K4 all orders", ["--prop", "C12", "--config", "uw", "--source", "perm", "--n", "4", "--edges", "6", "--weights", "1,3,8"], False))
     jobs.append(("paths", "dw", "dijkstra dw ladder", ["--prop", "C12", "--config", "dw", "--source", "ladder", "--maxl", "12"], False))
-    jobs.append(("paths", "dir", "bfs dir long chains", ["--prop", "C11", "--config", "dir", "--source", "chains", "--maxn", "200"], False))
-    jobs.append(("paths", "und", "bfs und long chains", ["--prop", "C11", "--config", "und", "--source", "chains", "--maxn", "130"], False))
-    jobs.append(("paths", "dw", "dijkstra dw long chains", ["--prop", "C12", "--config", "dw", "--source", "chains", "--maxn", "130"], False))
+    jobs.append(("paths", "dir", "bfs dir long chains", ["--prop", "C11", "--config", "dir", "--source", "chains", "--maxn", "129"], False))
+    jobs.append(("paths", "und", "bfs und long chains", ["--prop", "C11", "--config", "und", "--source", "chains", "--maxn", "70"], False))
+    jobs.append(("paths", "dw", "dijkstra dw long chains", ["--prop", "C12", "--config", "dw", "--source", "chains", "--maxn", "129"], False))
     jobs.append(("paths", "dw", "dijkstra dw 5 vertices", ["--prop", "C12", "--config", "dw", "--source", "subsets", "--n", "5", "--edges", "5", "--weights", "1,3,8", "--stride", "41" if tier == "quick" else "3"], False))
     if tier == "thorough":
         jobs.append(("paths", "dir", "bfs dir e2n4", ["--prop", "C11", "--config", "dir", "--source", "e2", "--n", "4"], False))
@@ -761,7 +764,7 @@ def c17_setup_builds():
 
 
 def all_builds():
-    bs = [e1_build(g) for g in range(8)] + [c07_build(g) for g in range(10)] + [shapes_build(g) for g in range(9)] + [paths_build(g) for g in range(4)] + [io_build(g) for g in range(4)] + [io_build(g, True) for g in range(4)] + c17_setup_builds() + [c18_build(g) for g in range(8)] + [c18_build(2, "clang++"), c18_build(7, "clang++")]
+    bs = [e1_build(g) for g in range(8)] + [c07_build(g) for g in range(10)] + [shapes_build(g) for g in range(9)] + [shapes_build(0, "-O0"), shapes_build(1, "-O0")] + [paths_build(g) for g in range(4)] + [io_build(g) for g in range(4)] + [io_build(g, True) for g in range(4)] + c17_setup_builds() + [c18_build(g) for g in range(8)] + [c18_build(2, "clang++"), c18_build(7, "clang++")]
     return bs
 
 
